@@ -14,7 +14,11 @@ Tie of the hand models to the code and everything binary64-specific: props/cases
   3. witness lines of the REMAINING findings (reported as failures, matched by known_findings.json);
   4. seeded checks (`Xoshiro256Plus::seed_from_u64`) of all 40 sampleable distributions: no non-finite / unsupported draw, no
      panic, determinism (same seed twice ⇒ bit-identical), `sample(n).len() == n`;
-  5. a fixed-seed Kolmogorov–Smirnov TEST (not a theorem) of `sample(2000)` of 28 parameterisations against the object's own
+  5. ConjugateModel (Beta/Bernoulli, Gamma/Poisson, NormalGamma/Gaussian): `sample(n)` is bit-identical to n successive `draw`s
+     from the same seeded generator state, and a fixed-seed 6σ TEST of the joint law of `sample(2)` / `sample(50)`;
+     same-seed scaling of the prior draws in the precision multiplier (NormalGamma, NIX, NIG, NIW); Mixture<Gaussian> index draw at
+     the extreme words for the weights [1/k; k]; `UnitPowerLaw::draw` after `set_alpha` (history line, compared with the model);
+  6. a fixed-seed Kolmogorov–Smirnov TEST (not a theorem) of `sample(2000)` of 28 parameterisations against the object's own
      cdf, rejected only below p = 1e-6.
 """
 from checklib import core
@@ -38,7 +42,8 @@ ASSUMPTIONS = ['parameters valid as the checked constructors enforce them; gener
                'classes float_rounding_boundary / small_shape_underflow / narrow_interval_scale_loop / top_variate_sum_rounding',
                'the statistical check is a test at level 1e-6 with a fixed seed, not a proof']
 N_GEN = {'quick': 0, 'thorough': 0}
-CLASSES = ('float_rounding_boundary', 'small_shape_underflow', 'narrow_interval_scale_loop', 'top_variate_sum_rounding',
+CLASSES = ('model_disagreement', 'conjugate_sample_vs_draws', 'conjugate_sample_joint_law', 'prior_draw_scaling', 'mixture_index_draw',
+           'float_rounding_boundary', 'small_shape_underflow', 'narrow_interval_scale_loop', 'top_variate_sum_rounding',
            'seeded_draw_check', 'regression_of_repaired_defect', 'statistical_law')
 
 
@@ -55,6 +60,10 @@ def extra_run(man, tier, seed):
         obligations.append({'name': 'corr:' + site + '(hand model, bitwise)', 'kind': 'corr', 'ok': not mm and v['cases'] > 0, 'site': site,
                             'detail': '%d cases, %d disagreements' % (v['cases'], len(mm)),
                             'cases': [{'line': l[:3000], 'impl': a[:600], 'model': b[:600]} for l, a, b in mm[:3]]})
+        for l, a, b in mm[:5]:
+            failures.append({'site': site, 'case': l[:3000], 'impl': a[:600], 'expected': 'the answer of the hand model: ' + b[:300],
+                             'observed': a if a in ('PANIC', 'HANG', 'DIED') else 'value', 'detail': 'implementation and model disagree',
+                             'cls': 'model_disagreement'})
     # 2. regression of the repaired findings
     for x in r['regress']:
         obligations.append({'name': 'regress:' + x['site'] + ':' + x['what'][:60], 'kind': 'regress', 'ok': x['ok'], 'site': x['site'],
@@ -84,6 +93,28 @@ def extra_run(man, tier, seed):
     seqF = [x['site'] for x in r['drawchk'] if not x['observed'] and x['impl'].split()[-1:] == ['F']]
     if seqF:
         samples.append('sample(n) is not the n seeded draws (same law, other use of the stream; C04.Mixture_sample_two): ' + ', '.join(seqF))
+    # 4b. ConjugateModel, prior scaling, Mixture<Gaussian> index draw
+    for key, name, kind, site in (('joint', 'joint:ConjugateModel.sample = n draws (seed-for-seed) + joint-law test', 'test', 'ConjugateModel.sample'),
+                                  ('scaling', 'scaling:prior draws scale with the precision multiplier (same seed)', 'test', 'NormalInvWishart.draw'),
+                                  ('mixture_gaussian', 'scripted:Mixture<Gaussian>.draw never panics on valid weights', 'test', 'Mixture.draw')):
+        xs = r[key]
+        bad = [x for x in xs if not x['ok']]
+        obligations.append({'name': name, 'kind': kind, 'ok': not bad and len(xs) > 0, 'site': site,
+                            'detail': '%d lines, %d bad' % (len(xs), len(bad)),
+                            'cases': [{'line': x['line'][:3000], 'impl': x['impl'][:600], 'model': ''} for x in bad[:3]]})
+        shown = {}
+        for x in bad:
+            kcls = (x['site'], x.get('cls'), x.get('observed'))
+            shown[kcls] = shown.get(kcls, 0) + 1
+            if shown[kcls] > 3:
+                continue
+            failures.append({'site': x['site'], 'case': x['line'][:3000], 'impl': x['impl'][:600],
+                             'expected': x.get('expected', 'a supported draw, no panic'),
+                             'observed': x.get('observed') or (x['impl'] if x['impl'] in ('PANIC', 'HANG', 'DIED') else 'value'),
+                             'detail': x['impl'][:300], 'cls': x.get('cls', 'mixture_index_draw')})
+    for x in r['joint']:
+        if x['cls'] == 'conjugate_sample_joint_law':
+            samples.append('joint law: ' + x['impl'])
     # 5. statistical law (a test)
     sb = [x for x in r['stat'] if not x['ok']]
     obligations.append({'name': 'test:KS(sample(n) vs own cdf, fixed seed, p >= 1e-6)', 'kind': 'test', 'ok': not sb, 'site': 'Sampleable.sample',
